@@ -19,7 +19,8 @@ JOINS = {'Clipper2Lib::ClipperOffset::DoMiter(': 'stub_domiter', 'Clipper2Lib::C
          'Clipper2Lib::Point<long>& std::vector<Clipper2Lib::Point<long>, std::allocator<Clipper2Lib::Point<long> > >::emplace_back<Clipper2Lib::Point<long> >(': 'stub_pathout_append',
          'Clipper2Lib::Point<long>& std::vector<Clipper2Lib::Point<long>, std::allocator<Clipper2Lib::Point<long> > >::emplace_back<Clipper2Lib::Point<long> const&>(': 'stub_pathout_append_c'}
 OBLIGATIONS = [
-  O('C06.a-offsetpoint-join-selection', 'off_dispatch.cpp', 'harness_offsetpoint', replace=JOINS, unwind=8, backend=['cadical', 'kissat', 'sat'], timeout=600, bound='unit normals from 8 exact directions (axis-parallel and 3-4-5), all deltas 0.5..1e6 of either sign, all join types, miter limits 0..10', desc='OffsetPoint: concave turns (towards the offset side) emit offset-vertex-offset; convex turns call the join the join type names; miter falls back to square beyond the limit; near-straight joins are mitered'),
+  O('C06.a-offsetpoint-join-selection', 'off_dispatch.cpp', 'harness_offsetpoint', replace=JOINS, unwind=8, backend=['cadical', 'kissat', 'sat'], flags=['--slice-formula'], timeout=600, bound='unit normals from 8 exact directions (axis-parallel and 3-4-5), all deltas 0.5..1e6 of either sign, all join types, miter limits 0..10', desc='OffsetPoint: a turn towards the offset side (sin_a*delta < 0, not a near-reversal) emits exactly three points and calls no join worker; any other turn calls exactly one worker: miter when almost straight or within the miter limit, else square; round, bevel, square as requested'),
+  O('C06.a-offsetpoint-concave-coords', 'off_dispatch.cpp', 'harness_offsetpoint', defs=['OP_COORDS'], replace=JOINS, unwind=8, backend=['cadical', 'kissat', 'sat'], flags=['--slice-formula'], timeout=600, bound='as above with delta from {0.5,-0.5,3.25,-7,1e6,-1e6}', desc='the three points of a concave join are: vertex + previous normal*delta, the vertex itself, vertex + this normal*delta'),
   O('C06.c-polygon-rules-reversed-3', 'off_dispatch.cpp', 'harness_dispatch_rules', defs=['LEN1=3', 'REVERSED'], replace=OFFW, unwind=8, bound='one negatively oriented triangle (reversed convention), all deltas (inflate up to 1e6)', desc='a negatively oriented polygon group is offset with the negated delta and is never dropped when inflating'),
   O('C06.c-polygon-rules-reversed-4', 'off_dispatch.cpp', 'harness_dispatch_rules', defs=['LEN1=4', 'REVERSED'], replace=OFFW, unwind=8, tiers='t', bound='one negatively oriented quadrilateral', desc='as above'),
   O('C06.c-orientation-bookkeeping', 'off_dispatch.cpp', 'harness_groups_independent', defs=['LEN0=3'], replace=BOTH, unwind=8, bound='two groups (triangle, triangle), all deltas / join / end types / flags', desc='signed delta reaches the Polygon worker; union = Positive fill, ReverseSolution and PreserveCollinear forwarded'),
